@@ -1,6 +1,6 @@
 (* GenGlobals.v - GENERATED from /repo by /verif/translator; do not edit.
    source cssutils/parse.py sha1 ebf8d99056d2
-   source cssutils/prodparser.py sha1 78821d855d6b
+   source cssutils/prodparser.py sha1 a51546e9d592
    source cssutils/stylesheets/mediaquery.py sha1 c3549c265c12
 *)
 From Coq Require Import List NArith ZArith Bool.
